@@ -975,7 +975,10 @@ def _ifc_stmt(rng):
 def _misc_stmt(rng):
     """(kind, line, effect, vars): statements with no demanded outcome."""
     ln = rng.choice(PROG_LINES)
-    k = rng.randrange(22)
+    k = rng.randrange(23)
+    if k == 22:
+        # an image of the protection flag byte, made in an ordinary session: loading it is another way to write the flag
+        return 'bload-flag', rng.choice(['DEF SEG:BLOAD "Z:FLAG0.BIN"', 'DEF SEG:BLOAD "Z:FLAG0.BIN",1450', 'X=1:DEF SEG:BLOAD "Z:FLAG0.BIN":LIST']), None, []
     if k == 0:
         return 'read', rng.choice(['READ A$', 'READ A$,S$', 'READ X,A$:PRINT A$', 'RESTORE:READ X,A$,S$', 'RESTORE 20:READ X:READ A$:LPRINT A$']), None, ['A$', 'S$']
     if k == 1:
@@ -1353,6 +1356,7 @@ class S16(object):
         if r.err is not None:
             raise K.HarnessError('cannot save protected program: %r' % (r,))
         self.pbytes = _read(root + '/z/P.BAS')
+        d.exec(b'DEF SEG:BSAVE "Z:FLAG0.BIN",1450,1')
         media = self.cfg['media']
         if media == 'CAS':
             d.exec(b'SAVE "CAS1:P",P')
